@@ -117,6 +117,12 @@ class Actors:
             ns['__bool__'] = lambda self: False
         elif spec.get('falsy') == 'len':
             ns['__len__'] = lambda self: 0
+        if spec.get('eq') == 'equal':       # value equality (a frozen
+            ns['__eq__'] = lambda a, b: type(a) is type(b)      # dataclass)
+            ns['__hash__'] = lambda a: 11
+        elif spec.get('eq') == 'unhashable':    # __eq__ only (a dataclass)
+            ns['__eq__'] = lambda a, b: a is b
+            ns['__hash__'] = None
         try:
             cls = type(f'K{i}', bases, dict(ns))
         except TypeError:
@@ -1425,6 +1431,10 @@ def gen_config(prop, rng):
         if rng.random() < .12:
             # container-like components that are falsy when queried
             spec['falsy'] = rng.choice(['bool', 'len'])
+        if rng.random() < .12:
+            # components with value equality: the world tells objects apart
+            # by identity whatever they compare like
+            spec['eq'] = rng.choice(['equal', 'unhashable'])
         if rng.random() < .15:
             spec['virtual'] = True      # registered with an ABC
         if not bases and handler_p and rng.random() < .2:
